@@ -449,6 +449,10 @@ func evalChain(p ast.Position, scope *stateful.Scope, stck *stack) error {
 			}
 		}
 		if describer.HasProperty(name) {
+			if rd, ok := describer.(*ReflectionDescriber); ok && !rd.hasReadableProperty(name) {
+				// Properties set by property methods cannot be read
+				return errorf(p, "property %s of object %T cannot be read, it is set by calling %s(...)", name, l, name)
+			}
 			stck.Push(describer.Property(name))
 		} else {
 			return errorf(p, "object %T has no property %s", l, name)
@@ -805,6 +809,13 @@ func (r *ReflectionDescriber) HasProperty(name string) bool {
 		return ok
 	}
 	_, ok = r.properties[name]
+	return ok
+}
+
+// hasReadableProperty reports whether the property is a field of the object,
+// as opposed to a property that only exists as a property method.
+func (r *ReflectionDescriber) hasReadableProperty(name string) bool {
+	_, ok := r.properties[capitalizeFirst(name)]
 	return ok
 }
 
